@@ -182,8 +182,13 @@ func main() {
 		add("BytesProg.lean", c3, e3)
 		c4, e4 := passBuilders(pkgs)
 		add("BytesBuild.lean", c4, e4)
-		c5, e5 := passDrivers(pkgs)
+		c5, e5, w5 := passDrivers(pkgs)
 		add("Drivers.lean", c5, e5)
+		// functions of pass T8 that left the subset are stubbed (see drivers.go); the list travels with the output
+		files["T8Failures.txt"] = strings.Join(w5, "\n")
+		for _, w := range w5 {
+			fmt.Fprintln(os.Stderr, "gotr: warning:", w)
+		}
 	}
 	{
 		c, e := passCT(root)
